@@ -20,7 +20,9 @@ META = dict(
          "classes) exhaustively to a small depth and by seeded simulation beyond; each behaviour is executed on the "
          "real Cache built by NewCache (only the wheel's ticker is replaced) and every Get/Take result, fetch count and "
          "the entry count after every single tick are compared with the specification. Concurrent Take: recorded "
-         "call/fetch traces of 2-16 goroutines are validated by TLC against spec/MemCacheTake.tla.",
+         "call/fetch/Get traces of 2-16 goroutines on one cache and on two cache instances used at the same time with the "
+         "same keys are validated by TLC against spec/MemCacheTake.tla (flights, cached values and the fetch-at-most-once "
+         "rule are per cache instance; a successful Take is followed by a Get on the same instance).",
     note="Tick granularity is resolved by the wheel contract of C10 (delay x s fires at tick floor(x)); the jitter is "
          "pinned to three classes through the mathx.Unstable hook, products kept >= 1 ms away from a whole second. "
          "Excluded (recorded, not judged): expiries below 2 s (a jittered delay below the wheel interval makes MoveTimer "
@@ -153,13 +155,39 @@ def run(ctx):
 INVS_TAKE = ["FlightsDisjoint", "CachedOnlyOnSuccess"]
 
 
+def cross_overlaps(trace_path):
+    """two-cache histories in which the fetch functions of two DIFFERENT caches ran at the same time for the SAME
+    key (the situation in which per-instance flights and one shared flight group differ)"""
+    hit, n, cur, seen = 0, 0, None, False
+    for line in open(trace_path):
+        line = line.strip()
+        if not line:
+            continue
+        e = json.loads(line)
+        if e["e"] == "reset":
+            n += 1
+            hit += 1 if seen else 0
+            cur, seen = set(), False
+        elif e["e"] == "fb":
+            if any(k == e["k"] and c != e.get("c", 1) for c, k in cur):
+                seen = True
+            cur.add((e.get("c", 1), e["k"]))
+        elif e["e"] == "fe":
+            cur.discard((e.get("c", 1), e["k"]))
+    return hit + (1 if seen else 0), n
+
+
 def conc(ctx, binp):
     """Concurrent Take callers: record call/fetch traces on the real cache, validate them with TLC."""
     rounds = 60 if ctx.quick else 600
     runs = [("gated", 4, 5, rounds)] if ctx.quick else [("gated", 1, 4, rounds), ("gated", 4, 6, rounds), ("gated", 16, 8, rounds)]
+    # two cache instances alive together and asked for the same keys while their fetches are in flight
+    runs += [("twocache", 4, 5, rounds)] if ctx.quick else \
+            [("twocache", 1, 4, rounds), ("twocache", 4, 6, rounds), ("twocache", 16, 8, rounds)]
     # many staggered callers on one fresh key with an almost immediate fetch
     runs += [("stagger", 4, 64, 400), ("stagger", 16, 64, 400)] if ctx.quick else \
             [("stagger", 2, 64, 1500), ("stagger", 4, 64, 1500), ("stagger", 8, 32, 1500), ("stagger", 16, 64, 1500)]
+    thin = []
     for shape, gmp, procs, n in runs:
         lab = "take-%s-g%d" % (shape, gmp)
         tr = os.path.join(ctx.build, lab + ".ndjson")
@@ -167,6 +195,16 @@ def conc(ctx, binp):
                    env=dict(VERIF_TRACE=tr, VERIF_ROUNDS=n, VERIF_PROCS=procs, VERIF_SHAPE=shape))
         ctx.validate_traces("MemCacheTake", tr, key_prefix="C17:take", invariants=INVS_TAKE, name="trace-" + lab,
                             timeout=1200)
+        if shape == "twocache":
+            ov, tot = cross_overlaps(tr)
+            ctx.notes["take_twocache_rounds_with_cross_cache_overlap"] = \
+                ctx.notes.get("take_twocache_rounds_with_cross_cache_overlap", 0) + ov
+            if ov * 10 < tot:
+                thin.append("%s: %d of %d" % (lab, ov, tot))
+    # vacuity guard (harness matter, looked at only when the code and the specification agree everywhere)
+    if thin and not ctx.disagreements:
+        raise core.Infra("two-cache Take recorder: too few rounds in which fetches of different caches overlapped on "
+                         "one key (%s)" % "; ".join(thin))
 
 
 def replay(ctx, rp):
